@@ -60,7 +60,67 @@ def journal_plan(prop):
     return plan
 
 
+# ------------------------------------------------------------------------------------- directory source
+def c19_plan(run, replay=None):
+    q = run.tier == "quick"
+    run.build_harness()
+    if replay:
+        replay_cases(run, replay, "cases.ndjson")
+    else:
+        run.tlc("DirSourceMC", "C19_quick.cfg" if q else "C19_thorough.cfg", "design", workers=8,
+                cases_out="cases.ndjson", timeout=1500)
+    s = run.harness("dirsrc", ["-in", "cases.ndjson", "-out", "trace.ndjson"], timeout=3000)
+    run.load_inputs("trace.ndjson.inputs")
+    run.validate_trace("DirSourceTrace", "trace.ndjson", s["cases"], timeout=3000)
+    only(run, ["C19."])
+    if not replay:
+        run.floor("directories", s["cases"], 3000)
+        run.floor("dirs_mixing_good_and_bad", run.counters.get("dirs_mixing_good_and_bad", 0), 1000)
+    run.counters["distinct_nontrivial"] = run.counters.get("dirs_mixing_good_and_bad", 0)
+    return run.finish(
+        "directories = sets of (name, kind) entries, kind in {good, subdir, vanish, empty, truncated, corrupt, dangling}; "
+        "every directory within the bound is enumerated by TLC and materialised on disk; non-trivial = mixes good "
+        "and bad entries",
+        ["file names from a fixed pool of 8 with adversarial byte order", "unreadable-by-permission files cannot be "
+         "produced as root and are represented by sub-directories, vanished files and dangling symlinks",
+         "TLC, Json module, Go os package"], exhaustive=True)
+
+
+# ------------------------------------------------------------------------------------------ CSV export
+def c20_plan(run, replay=None):
+    q = run.tier == "quick"
+    run.build_harness()
+    args = ["-in", "cases.ndjson", "-out", "trace.ndjson"]
+    if replay:
+        replay_cases(run, replay, "cases.ndjson")
+    else:
+        run.tlc("CsvExportMC", "C20_quick.cfg" if q else "C20_thorough.cfg", "design", workers=8,
+                cases_out="cases.ndjson", timeout=1500)
+        run.tlc("CsvExportMC", "C20_sim.cfg", "design", workers=1, simulate=1500 if q else 20000, depth=10,
+                seed=run.seed, cases_out="cases.ndjson")
+        run.tlc("JournalMC", "C15_sim_cases.cfg", "design", workers=1, simulate=300 if q else 3000, depth=8,
+                seed=run.seed, cases_out="histories.ndjson")
+        args += ["-histories", "histories.ndjson"]
+    s = run.harness("csvexport", args, timeout=3000)
+    run.load_inputs("trace.ndjson.inputs")
+    run.validate_trace("CsvExportTrace", "trace.ndjson", s["cases"], timeout=3000)
+    only(run, ["C20."])
+    if not replay:
+        run.floor("journals", s["cases"], 2000)
+        run.floor("trips_without_stop_times", run.counters.get("trips_without_stop_times", 0), 10)
+    run.counters["distinct_nontrivial"] = run.counters.get("distinct_nonempty_journals", 0)
+    return run.finish(
+        "journals: every free-form journal within the bound (all presence patterns of track/arrival/departure/"
+        "marked-past, 3 directions, 0-2 stop times) enumerated by TLC, random 4-trip journals, and journals "
+        "reached by BuildJournal on simulated histories; distinct by JSON, non-trivial = at least one trip",
+        ["ids and tracks free of CSV metacharacters (as the property assumes)",
+         "cells are decoded strictly by the harness (decimal integers, direction 0/1/blank); encoding/csv is trusted"],
+        exhaustive=True)
+
+
 PLANS = {
+    "C20": c20_plan,
+    "C19": c19_plan,
     "C14": journal_plan("C14"),
     "C15": journal_plan("C15"),
 }
